@@ -73,6 +73,12 @@ impl Bits {
         let mut h = LogHash::new();
         let mut busy = Ps2Decoder::new(); // only ever holds junk; add_word must not care
         let mut busy_bits = 0usize;
+        // a long-lived receiver on the same wire (the statement's "consequently" clause is
+        // about frames in a stream): ground truth applies whenever, by construction of the
+        // trace, it sits at a frame boundary (start of run, or clear() since the last
+        // length-changing fault)
+        let mut stream = Ps2Decoder::new();
+        let mut aligned = true;
         let mut kb = Keyboard::new(DynSet::new(2), DynLayout::Direct(2), hc(true));
         let mut kb_mirror = ScancodeSet2::new();
         let mut violation: Option<Violation> = None;
@@ -97,7 +103,9 @@ impl Bits {
                     busy.clear();
                     busy_bits = 0;
                     kb.clear();
-                    env.cov.api_calls += 2;
+                    stream.clear();
+                    aligned = true;
+                    env.cov.api_calls += 3;
                     if i > 0 {
                         env.cov.fault("clear_with_nothing_pending");
                         env.cov.probe("watchdog_clear_after_fault");
@@ -132,6 +140,26 @@ impl Bits {
                     any_fault = true;
                 }
                 _ => {}
+            }
+            // the long-lived receiver sees every bit the wire delivers
+            let was_aligned = aligned;
+            let mut r_stream: Option<FRes> = None;
+            let mut stream_early = false;
+            for (j, b) in bits.iter().enumerate() {
+                let x = FRes::of_bit(&stream.add_bit(*b));
+                env.cov.api_calls += 1;
+                if was_aligned && bits.len() == 11 {
+                    if j < 10 {
+                        if x != FRes::Pending {
+                            stream_early = true;
+                        }
+                    } else {
+                        r_stream = Some(x);
+                    }
+                }
+            }
+            if bits.len() != 11 {
+                aligned = false;
             }
             if bits.len() != 11 {
                 // not a frame: the bits end up as junk in the long-lived decoder
@@ -195,7 +223,7 @@ impl Bits {
             if prev_rejected {
                 env.cov.probe("frame_right_after_rejected_frame");
             }
-            prev_rejected = matches!(r, FRes::Err(_));
+            prev_rejected = matches!(want, FRes::Err(_));
             // the same word through Keyboard::add_word: same framing verdict, and only an
             // accepted byte reaches the scancode stage
             let rk = Res::of(&kb.add_word(w));
@@ -210,7 +238,8 @@ impl Bits {
             if rk != wantk {
                 fail!('ops, i, "keyboard-add_word-verdict", "Keyboard::add_word({:03X}) returned {}, expected {}", w, rk.show(), wantk.show());
             }
-            // ground truth from the fault annotation, not from the model
+            // ground truth from the fault annotation, not from the model: for the frame judged
+            // on its own, and for the same frame as the long-lived receiver saw it in the stream
             if let Some(sent) = sent {
                 let flips = match fault {
                     WFault::None => Some(0u16),
@@ -218,43 +247,59 @@ impl Bits {
                     _ => None,
                 };
                 if let Some(m) = flips {
-                    env.cov.evaluations += 1;
-                    match m.count_ones() {
-                        0 => {
-                            env.cov.probe("aligned_clean_frame_checked");
-                            env.cov.hit("bytes_round_tripped", sent as usize);
-                            if r != FRes::Byte(sent) {
-                                fail!('ops, i, "valid-frame-round-trip", "device sent {:02X} undamaged (frame {:03X}); result {}", sent, w, r.show());
-                            }
+                    let mut views: Vec<(&str, FRes)> = vec![("on its own", r)];
+                    if let Some(rs) = r_stream {
+                        env.cov.probe("frame_checked_in_stream");
+                        if stream_early {
+                            fail!('ops, i, "valid-frame-round-trip", "long-lived receiver at a frame boundary: a bit before the 11th of frame {:03X} already produced a result", w);
                         }
-                        1 => {
-                            let pos = m.trailing_zeros() as usize;
-                            env.cov.hit("byte_x_single_flip", sent as usize * 11 + pos);
-                            env.cov.probe("single_flip_rejected");
-                            if !matches!(r, FRes::Err(_)) {
-                                fail!('ops, i, "single-bit-corruption-rejected", "frame for {:02X} with bit {} flipped was not rejected: {}", sent, pos, r.show());
-                            }
-                        }
-                        2 => {
-                            let i0 = m.trailing_zeros() as usize;
-                            let i1 = 15 - m.leading_zeros() as usize;
-                            env.cov.hit("byte_x_double_flip", sent as usize * 55 + pair_index(i0, i1));
-                            let both_inside = (1..=9).contains(&i0) && (1..=9).contains(&i1);
-                            if both_inside {
-                                env.cov.probe("double_flip_accepted_with_changed_byte");
-                                let wantb = sent ^ (((m >> 1) & 0xFF) as u8);
-                                if r != FRes::Byte(wantb) {
-                                    fail!('ops, i, "double-bit-corruption", "frame for {:02X} with bits {} and {} flipped: got {}, expected Ok({:02X})", sent, i0, i1, r.show(), wantb);
-                                }
-                            } else {
-                                env.cov.probe("double_flip_rejected");
-                                if !matches!(r, FRes::Err(_)) {
-                                    fail!('ops, i, "double-bit-corruption", "frame for {:02X} with bits {} and {} flipped (one outside data/parity) was accepted: {}", sent, i0, i1, r.show());
-                                }
-                            }
-                        }
-                        _ => {}
+                        views.push(("in the stream, receiver at a frame boundary", rs));
                     }
+                    for (how, got) in views {
+                        env.cov.evaluations += 1;
+                        match m.count_ones() {
+                            0 => {
+                                env.cov.probe("aligned_clean_frame_checked");
+                                env.cov.hit("bytes_round_tripped", sent as usize);
+                                if got != FRes::Byte(sent) {
+                                    fail!('ops, i, "valid-frame-round-trip", "device sent {:02X} undamaged (frame {:03X}); result {} ({})", sent, w, got.show(), how);
+                                }
+                            }
+                            1 => {
+                                let pos = m.trailing_zeros() as usize;
+                                env.cov.hit("byte_x_single_flip", sent as usize * 11 + pos);
+                                env.cov.probe("single_flip_rejected");
+                                if !matches!(got, FRes::Err(_)) {
+                                    fail!('ops, i, "single-bit-corruption-rejected", "frame for {:02X} with bit {} flipped was not rejected: {} ({})", sent, pos, got.show(), how);
+                                }
+                            }
+                            2 => {
+                                let i0 = m.trailing_zeros() as usize;
+                                let i1 = 15 - m.leading_zeros() as usize;
+                                env.cov.hit("byte_x_double_flip", sent as usize * 55 + pair_index(i0, i1));
+                                let both_inside = (1..=9).contains(&i0) && (1..=9).contains(&i1);
+                                if both_inside {
+                                    env.cov.probe("double_flip_accepted_with_changed_byte");
+                                    let wantb = sent ^ (((m >> 1) & 0xFF) as u8);
+                                    if got != FRes::Byte(wantb) {
+                                        fail!('ops, i, "double-bit-corruption", "frame for {:02X} with bits {} and {} flipped: got {}, expected Ok({:02X}) ({})", sent, i0, i1, got.show(), wantb, how);
+                                    }
+                                } else {
+                                    env.cov.probe("double_flip_rejected");
+                                    if !matches!(got, FRes::Err(_)) {
+                                        fail!('ops, i, "double-bit-corruption", "frame for {:02X} with bits {} and {} flipped (one outside data/parity) was accepted: {} ({})", sent, i0, i1, got.show(), how);
+                                    }
+                                }
+                            }
+                            _ => {}
+                        }
+                    }
+                }
+            } else if let Some(rs) = r_stream {
+                // a noise word in the stream: the long-lived receiver must judge it like a fresh one
+                env.cov.evaluations += 1;
+                if rs != want || stream_early {
+                    fail!('ops, i, "frame-verdict-model", "long-lived receiver at a frame boundary judged the 11 bits {:03X} as {}, the PS/2 frame rule says {}", w, rs.show(), want.show());
                 }
             }
             if env.verbose {
@@ -451,7 +496,7 @@ impl Bits {
                     if let Some(n) = after_clear_from {
                         env.cov.hit("word_after_clear_from_partial", n * 2048 + w as usize);
                     }
-                    prev_class = Some(r.class());
+                    prev_class = Some(frame_verdict(&word_bits(w)).class()); // model side: coverage must not depend on the code under test
                     prev_word = Some(w);
                     after_clear_from = None;
                 }
@@ -519,8 +564,8 @@ impl Scenario for Bits {
     }
     fn runs(&self, tier: Tier) -> u64 {
         match tier {
-            Tier::Quick => 200_000,
-            Tier::Thorough => 20_000_000,
+            Tier::Quick => 400000,
+            Tier::Thorough => 20000000,
         }
     }
     fn declare(&self, cov: &mut Cov) {
@@ -546,6 +591,9 @@ impl Scenario for Bits {
         cov.probe_declare("frame_right_after_rejected_frame");
         cov.probe_declare("aligned_clean_frame_checked");
         cov.probe_declare("watchdog_clear_after_fault");
+        if self.prop == WProp::C05 {
+            cov.probe_declare("frame_checked_in_stream");
+        }
         if self.prop == WProp::C06 {
             cov.probe_declare("clear_with_10_bits_pending");
             cov.probe_declare("recovered_after_watchdog_clear");
@@ -759,7 +807,7 @@ impl Scenario for Bits {
             WProp::C05 => vec![
                 "sampled, not enumerated; 'saturated' is a measured outcome of the reach bitsets".into(),
                 "trusted base: frame_verdict / encode_frame in model.rs, written from the PS/2 frame description".into(),
-                "each delivered frame is judged on a fresh decoder (and by add_word on a busy one): independence of frames and clear() are C06's business".into(),
+                "each delivered frame is judged on a fresh decoder (and by add_word on a busy one), and additionally as a long-lived receiver sees it in the stream whenever that receiver is at a frame boundary by construction of the trace (start of run, or clear() since the last length-changing fault)".into(),
                 "words with bits above bit 10 are outside the documented precondition and are only used by C08".into(),
             ],
             WProp::C06 => vec![
